@@ -489,4 +489,3 @@ func (it *stringIter) next() tuple {
 	it.i += n
 	return okv
 }
-
